@@ -1291,7 +1291,7 @@ func init() {
 		Real:        []string{"merkle.MerkleVerifier.VerifyLeafInclusion / VerifyLeafHashInclusion / VerifyConsistency", "merkle.MerkleProve", "proof server: merkle.CompactMerkleTree (memory hash store), merkle.MerkleLeafPath, TreeHasher.HashFullTreeWithLeafHash"},
 		Stub:        []string{"the channel and the client are the harness; the file hash store is covered by C06; ledger-served proofs (GetMerkleProof, GetCrossStatesProof) are E1/C08"},
 		Assumptions: []string{"SHA-256 collision resistance", "root-level reading of soundness: a claimed tree size that differs from the real one but induces the same left/right pattern is not detectable by any verifier of RFC 6962 audit paths (the RFC 9162 algorithms accept it too); such acceptances are counted, not alarmed", "VerifyLeafHashInclusion takes a hash: domain separation is the caller's duty, so an interior hash with an attacker-chosen size is counted, not alarmed; the data-taking APIs must reject every interior-as-leaf attempt", "consistency from size 0 and between identical heads ignores the proof (certificate-transparency reference behaviour): counted, not alarmed"},
-		QuickRuns:   1600, ThoroughRuns: 100000, QuickCap: 40, ThoroughCap: 800,
+		QuickRuns:   1200, ThoroughRuns: 80000, QuickCap: 40, ThoroughCap: 800,
 		RequiredProbes: []string{"incl_genuine_accepted", "cons_genuine_accepted", "mp_genuine_accepted", "multi_mutation", "mp_leaf_as_interior_attack_built", "tuples_rejected"},
 		Generate:       c07Generate,
 		Execute:        c07Execute,
